@@ -144,6 +144,34 @@ class InvalidMailbox(MailboxException):
     pass
 
 
+####################################################################
+#
+def canonical_mbox_name(name: str) -> str:
+    """
+    Mailbox names are paths relative to the user's mail directory. Return
+    the name in the form that we use internally: without the one leading
+    `/` that a client may put in front of it (`/` is our hierarchy
+    delimiter), normalized, and `inbox`, which is case-insensitive, in
+    lower case.
+
+    A name that refers to something outside of the mail directory is not
+    the name of a mailbox: if it is still an absolute path, or if it begins
+    with `..` after it has been normalized, InvalidMailbox is raised.
+
+    The mail directory itself (`.`) is returned as the empty name.
+    """
+    name = name[1:] if name.startswith("/") else name
+    if name:
+        name = os.path.normpath(name)
+    if name.startswith("/") or name == ".." or name.startswith("../"):
+        raise InvalidMailbox(f"Invalid mailbox name: '{name}'")
+    if name == ".":
+        name = ""
+    if name.lower() == "inbox":
+        name = "inbox"
+    return name
+
+
 ##################################################################
 ##################################################################
 #
@@ -2913,6 +2941,8 @@ class Mailbox:
         Creates a mailbox on disk that does not already exist and
         instantiates a Mailbox object for it.
         """
+        name = canonical_mbox_name(name)
+
         # You can not create 'INBOX' nor, because of MH rules, create a mailbox
         # that is just the digits 0-9.
         #
@@ -3016,6 +3046,7 @@ class Mailbox:
         - `name`: The name of the mailbox to delete
         - `server`: The user server object
         """
+        name = canonical_mbox_name(name)
         if name == "inbox":
             raise InvalidMailbox("You are not allowed to delete the inbox")
 
@@ -3142,6 +3173,7 @@ class Mailbox:
         - `new_name`: the new name of the mailbox
         - `server`: the user server object
         """
+        new_name = canonical_mbox_name(new_name)
         mbox = await server.get_mailbox(old_name)
         # The mailbox we are moving to must not exist.
         #
@@ -3183,6 +3215,12 @@ class Mailbox:
 
         if mbox_match != "":
             mbox_match = os.path.normpath(mbox_match)
+
+        # We only list mailboxes inside the mail directory. Refuse a
+        # reference or a pattern that names something outside of it.
+        #
+        for name in (ref_mbox_name, mbox_match, ref_mbox_name + mbox_match):
+            canonical_mbox_name(name)
 
         mbox_match = ref_mbox_name + mbox_match
 
